@@ -71,6 +71,28 @@ CHECKS = {
             "that fails after k bytes, for every k below the output length, must yield Err. The XML reader's per-Item recursion (stack overflow on ~20k nested Items) is an open finding.",
             "trusts: the 20 s watchdog as the definition of a hang; the allocator limit as the executable form of 'memory unrelated to the input size'",
             "DESIGN.md 2/C13"),
+    "C14": ("exploration",
+            "property-based differential testing against an independent attribute codec written from docs/attributes.md; bounded-exhaustive id sweeps",
+            "Generated attribute maps are round-tripped through rbx_types, decoded by a reference decoder written from docs/attributes.md, compared byte for byte with the reference "
+            "encoding, and blobs from the reference encoder (entry order shuffled) are decoded by the crate; the blob both file formats store for Instance.Attributes is extracted and "
+            "compared with Attributes::to_writer. All 256 rotation-id bytes, all BrickColor numbers and all 256 type-id bytes are enumerated.",
+            "trusts: docs/attributes.md; rotation snapping within f32::EPSILON is accepted as in the binary format",
+            "DESIGN.md 2/C14"),
+    "C17": ("exploration",
+            "property-based round-trip testing through 7 serde codecs and the text forms; exhaustive u16 / u8 sweeps; fixture replay of allValues.json",
+            "Generated values of all 40 Variant variants go through serde_json (str, slice, reader, Value), bincode and rmp_serde (named, compact) and must come back bit-identical; Ref and "
+            "UniqueId go through Display/FromStr; every u16 BrickColor number and every Faces / Axes byte is enumerated; Tags and MaterialColors blobs are converted both ways; each sample of "
+            "rbx_dom_lua/src/allValues.json must decode to its stated type and re-encode to the same JSON.",
+            "trusts: serde_json (float_roundtrip), bincode, rmp_serde as correct transports",
+            "DESIGN.md 2/C17"),
+    "C18": ("exploration",
+            "schedule exploration with a harness-owned deterministic scheduler (cfg hook yield points): exhaustive DFS over all schedules of small programs + proptest-generated programs and schedules + free-running stress",
+            "Worker threads run new/clone/drop programs on SharedStrings and stop at every yield point (operation boundaries and the two hook points inside rbx_types); a controller lets "
+            "one thread advance per step, so a schedule is a choice sequence that can be enumerated, generated, shrunk and replayed. After every step all live handles are inspected "
+            "(bytes, ==, hash, shared buffer), and at quiescence the table must hold no entry of the case. All schedules of all pairs of 2-operation (quick) / 3-operation and triples of "
+            "2-operation (thorough) programs are enumerated exhaustively.",
+            "trusts: std's Arc/Mutex; schedules are controlled at exactly the granularity the property names; the free-running part is a stress sample",
+            "DESIGN.md 2/C18"),
 }
 
 NOT_YET = {
